@@ -158,3 +158,10 @@ Fixpoint hhrun (g : strategy) (copy_info : bool) (b : her) (ops : list hhop) :=
   | HHObs :: rest => her_observe g copy_info b :: hhrun g copy_info b rest
   | HHReset :: rest => hhrun g copy_info (her_reset b) rest
   end.
+
+(* sample(): the B drawn flat cells are split at nb_virtual (np.split(batch_indices, [nb_virtual])): the first part is relabelled,
+   the rest is returned as stored; the batch is th.cat((real, virtual)) *)
+Definition her_split (n B : Z) (draws : list Z) : list Z * list Z :=
+  let v := Z.to_nat (nb_virtual n B) in (firstn v draws, skipn v draws).
+Definition her_batch_cells (n B : Z) (draws : list Z) : list (bool * Z) :=     (* (relabelled?, flat cell) in output order *)
+  let '(vi, re) := her_split n B draws in map (fun f => (false, f)) re ++ map (fun f => (true, f)) vi.
